@@ -10,10 +10,11 @@ from req_compile import utils
 def parse_source_filename(
     full_filename: str,
 ) -> Tuple[str, Optional[packaging.version.Version]]:
-    filename = full_filename.replace(".tar.gz", "")
-    filename = filename.replace(".tar.bz2", "")
-    filename = filename.replace(".zip", "")
-    filename = filename.replace(".tgz", "")
+    filename = full_filename
+    for ext in (".tar.gz", ".tar.bz2", ".zip", ".tgz"):
+        if filename.endswith(ext):
+            filename = filename[: -len(ext)]
+            break
 
     # Source directories don't express a version
     if full_filename == filename:
@@ -49,6 +50,8 @@ def parse_source_filename(
     pkg_name = "-".join(dash_parts[:version_start])
 
     version_str = "-".join(dash_parts[version_start:]).replace("_", "-")
+    # A platform suffix follows the public version; a local version label is kept as it is
+    version_str, plus, local_label = version_str.partition("+")
     version_parts = version_str.split(".")
     for idx, part in enumerate(version_parts):
         if idx != 0 and (
@@ -60,7 +63,7 @@ def parse_source_filename(
             break
 
     try:
-        version = utils.parse_version(".".join(version_parts))
+        version = utils.parse_version(".".join(version_parts) + plus + local_label)
     except Exception:  # pylint: disable=broad-except
         version = None
     return pkg_name, version
